@@ -5,7 +5,7 @@ from .gen_prog import ProgGen
 ID = "C01"
 LEAN_MODULE = "Tulisp.Props.C01"
 THEOREMS = []
-RULE = ("random programs from a grammar over the core forms (constants, variables, quote, progn, let, let*, setq, set, "
+RULE = ("all programs up to two (quick) / three (thorough) constructor levels over a reduced alphabet of the core forms, and random programs from a grammar over the core forms (constants, variables, quote, progn, let, let*, setq, set, "
         "if, cond, when, unless, and, or, not, xor, while, dolist, dotimes, defun, lambda, funcall, eval) with the "
         "variable pool a b c used at once as globals, let variables and parameters, 0-3 defuns that read and assign "
         "the pool dynamically, sub-expressions wrapped in (tick i); 1-4 programs per context; compared with the model "
@@ -29,6 +29,21 @@ def gen_case(rng, depth):
         lines.append("DUMP a b c")
     return lines, g.forms_used
 
+def small_programs(tier):
+    """all programs up to a size bound over a reduced alphabet of the core forms (exhaustive part)"""
+    atoms = ["a", "1", "nil", "(tick 1)", "'x"]
+    unary = ["(not %s)", "(progn %s)", "(setq a %s)", "(let ((a %s)) a)", "(let ((b 2)) %s)", "(if %s 1)", "(when %s 2)", "(unless %s 2)",
+             "(and %s)", "(or %s)", "(cond (%s))", "(f1 %s)", "(funcall 'f1 %s)", "(funcall (lambda (a) a) %s)", "(eval '%s)",
+             "(dolist (a '(1 2)) %s)", "(dotimes (a 2) %s)", "(let ((w 0)) (while (< w 1) (setq w (+ w 1)) %s))", "(set 'a %s)", "(list %s)"]
+    binary = ["(progn %s %s)", "(if %s %s)", "(if nil %s %s)", "(and %s %s)", "(or %s %s)", "(xor %s %s)", "(cond (%s %s))", "(let ((a %s)) %s)",
+              "(let* ((a %s) (b a)) %s)", "(f2 %s %s)", "(cons %s %s)", "(dolist (a (list %s)) %s)", "(when %s %s)", "(unless %s %s)",
+              "(setq a (cons %s %s))", "(let ((a 5)) (f0) %s %s)"]
+    level1 = [u % x for u in unary for x in atoms] + [b % (x, y) for b in binary for x in atoms for y in atoms]
+    out = list(atoms) + level1
+    if tier == "thorough":
+        out += [u % x for u in unary for x in level1]
+    return out
+
 def generate(tier, seed):
     rng = C.rng_for(seed, "C01")
     n = 6000 if tier == "quick" else 120000
@@ -38,7 +53,12 @@ def generate(tier, seed):
         cl, u = gen_case(rng, depth)
         lines += cl
         for k, v in u.items(): used[k] = used.get(k, 0) + v
-    return {"lines": lines, "distribution": {"cases": n, "forms_used": used}}
+    # exhaustive small programs, each in a fresh context with the same three definitions
+    defs = "(defun f0 () (setq a (tick 7))) (defun f1 (a) (tick 8) (list a b)) (defun f2 (a &optional b) (tick 9) (setq b a) b)"
+    sp = small_programs(tier)
+    for p in sp:
+        lines += ["NEW", "EVAL " + defs, "EVAL (setq b 'gb)", "EVAL " + p, "TICKS", "DUMP a b c"]
+    return {"lines": lines, "distribution": {"cases": n, "forms_used": used, "exhaustive_small_programs": len(sp)}}
 
 def count_nontrivial(lines, impl, model):
     n, seen = 0, set()
